@@ -713,6 +713,15 @@ def transferFromH (q : List (Rat × Rat) → Rat × Rat → Nat) (h : Heap) (src
         | .error e => .error e
         | .ok na => foldE (stepUnder src mapping) st (names.drop na)
 
+/-- the state of object `id` -/
+def valAt (h : Heap) (id : Nat) : IncVal :=
+  match h[id]? with
+  | some o => o.val
+  | none => ⟨[], none, none⟩
+
+/-- a heap `t2incon` seen as the functional model's dict of states -/
+def viewD (h : Heap) (d : InconH) : Incon := d.map (fun p => (p.1, valAt h p.2))
+
 /-- the contents of a `t2incon` read through the heap: (name in the dict, the object) -/
 def readInc (h : Heap) (inc : InconH) : List (Str × Option Obj) := inc.map (fun p => (p.1, h[p.2]?))
 
